@@ -346,7 +346,7 @@ func truncBase(args map[string]string, kind string) (file []byte, dim int) {
 		// The size check admits a prefix only if it holds 402 bytes per claimed record, so short reads
 		// inside records need slack: a 900-byte word makes prefixes of 808..1712 bytes pass the check
 		// and fail in the word / vector of record 0 and in every field of record 1.
-		recs := []wvRec{{strings.Repeat(Pick(r, embPool)[:3], 300), randVecBits(r, 100, 7)}, {Pick(r, embPool), randVecBits(r, 100, 6)}}
+		recs := []wvRec{{strings.Repeat(Pick(r, embPool), 450)[:900], randVecBits(r, 100, 7)}, {Pick(r, embPool), randVecBits(r, 100, 6)}}
 		return buildWV(2, recs), 100
 	case "ce100":
 		return buildCE(2, 100, [][]uint32{randVecBits(r, 100, 7), randVecBits(r, 100, 6)}), 100
@@ -543,9 +543,13 @@ func errClass(err error) string {
 
 func scratchDir() string {
 	d := os.Getenv("WTFVERIF_SCRATCH")
-	if d == "" {
+	if d == "" { // next to the harness binary (.build/), never a fixed place outside the framework
 		d = os.TempDir()
+		if self, err := os.Executable(); err == nil {
+			d = filepath.Join(filepath.Dir(self), "scratch-c19")
+		}
 	}
+	os.MkdirAll(d, 0o755)
 	return d
 }
 
